@@ -3,11 +3,13 @@ package main
 import (
 	"context"
 	"fmt"
+	"os"
 	"time"
 
 	ipfslog "berty.tech/go-ipfs-log"
 	orbitdb "berty.tech/go-orbit-db"
 	"berty.tech/go-orbit-db/iface"
+	cid "github.com/ipfs/go-cid"
 	datastore "github.com/ipfs/go-datastore"
 	"verifharness/sim"
 )
@@ -82,6 +84,18 @@ func runC02(r *Run) error {
 				map[string]interface{}{"kind": "cover", "scen": si, "replica": i, "when": when, "entries": len(es), "cached": len(cached)}, len(es) >= 2)
 			r.Count("cover")
 		}
+		trace := func(f string, a ...interface{}) {
+			if os.Getenv("VERIF_TRACE") != "" {
+				fmt.Fprintf(os.Stderr, "C02 scen %d: "+f+"\n", append([]interface{}{si}, a...)...)
+			}
+		}
+		lens := func() []int {
+			var l []int
+			for _, st := range s.Stores {
+				l = append(l, st.OpLog().Len())
+			}
+			return l
+		}
 		steps := 8 + r.Rng.Intn(25)
 		if r.Tier == "thorough" {
 			steps = 8 + r.Rng.Intn(60)
@@ -106,11 +120,13 @@ func runC02(r *Run) error {
 					}
 				}
 				settle("write")
+				trace("write on %d -> %v", i, lens())
 				r.Count("write")
 			case c < 52:
 				if k := net.PendingLen(); k > 0 {
 					net.DeliverPending(r.Rng.Intn(k), false) // any order: reordering
 					settle("deliver")
+					trace("deliver (of %d pending) -> %v", k, lens())
 					r.Count("deliver")
 				}
 			case c < 60:
@@ -126,23 +142,27 @@ func runC02(r *Run) error {
 					}
 					net.DeliverPending(r.Rng.Intn(k), false)
 					settle("deliver-unfetchable")
+					trace("deliver-unfetchable a=%d b=%d -> %v", a, b, lens())
 					r.Count("deliver-unfetchable")
 				}
 			case c < 66:
 				if k := net.PendingLen(); k > 0 {
 					net.DeliverPending(r.Rng.Intn(k), true) // duplicate
 					settle("dup")
+					trace("dup -> %v", lens())
 					r.Count("duplicate")
 				}
 			case c < 74:
 				if k := net.PendingLen(); k > 0 {
 					net.DropPending(r.Rng.Intn(k))
+					trace("drop")
 					r.Count("drop")
 				}
 			case c < 84:
 				a, b := r.Rng.Intn(n), r.Rng.Intn(n)
 				if a != b {
 					net.Cut(idx(a), idx(b))
+					trace("cut %d %d", a, b)
 					r.Count("cut")
 				}
 			case c < 92:
@@ -150,6 +170,7 @@ func runC02(r *Run) error {
 				if a != b {
 					net.Heal(idx(a), idx(b))
 					settle("heal")
+					trace("heal %d %d pending=%d -> %v", a, b, net.PendingLen(), lens())
 					r.Count("heal")
 				}
 			default:
@@ -170,6 +191,7 @@ func runC02(r *Run) error {
 				}
 				s.Reps[i], s.Stores[i] = rep, st2
 				settle("restart")
+				trace("restart %d -> %v", i, lens())
 				r.Count("restart")
 			}
 		}
@@ -184,8 +206,10 @@ func runC02(r *Run) error {
 				net.Heal(idx(a), idx(b))
 			}
 		}
+		trace("final phase: healed all, pending=%d -> %v", net.PendingLen(), lens())
 		for round := 0; round < 50; round++ {
 			settle("final")
+			trace("final round %d pending=%d -> %v", round, net.PendingLen(), lens())
 			if net.PendingLen() == 0 {
 				break
 			}
@@ -194,6 +218,29 @@ func runC02(r *Run) error {
 			}
 		}
 		settle("final")
+		trace("end -> %v state %s", lens(), sim.LastSettleState)
+		if os.Getenv("VERIF_TRACE") != "" {
+			for i, st := range s.Stores {
+				have := map[string]bool{}
+				for _, h := range hashesOf(st.OpLog().Values().Slice()) {
+					have[h] = true
+				}
+				for h := range written {
+					if !have[h] {
+						_, gerr := s.Reps[i].API.Dag().Get(ctx, mustCid(h))
+						trace("replica %d misses %d (links %v) fetchable-now err=%v", i, s.Canon.Hash.ID(h), idsOf(s.Canon, links[h]), gerr)
+					}
+				}
+				var cached []string
+				for _, k := range []string{"_localHeads", "_remoteHeads"} {
+					raw, err := st.Cache().Get(ctx, datastore.NewKey(k))
+					if err == nil {
+						cached = append(cached, headHashes(raw)...)
+					}
+				}
+				trace("replica %d heads %v cached %v", i, idsOf(s.Canon, hashesOf(st.OpLog().Heads().Slice())), idsOf(s.Canon, cached))
+			}
+		}
 		var all []string
 		for h := range written {
 			all = append(all, h)
@@ -219,4 +266,12 @@ func sortStrings(a []string) {
 			a[j-1], a[j] = a[j], a[j-1]
 		}
 	}
+}
+
+func mustCid(h string) cid.Cid {
+	c, err := cid.Decode(h)
+	if err != nil {
+		panic(err)
+	}
+	return c
 }
